@@ -35,8 +35,9 @@ Common peer surface::
 ``run_session(case, c2s=(sender, [receivers]), s2c=(sender, [receivers]))`` plays a generated
 *session* (plain segment, then rekey / auth segments with messages in both directions) and
 compares what every receiver delivers with what was sent; it raises ``SessionFailed`` with a
-clause/bucket on the first difference.  ``wire_log`` of the result holds the recorded chunks
-per direction and segment (used by C02/C03).
+oracle/kind/where on the first difference.  The returned ``SessionResult`` holds the recorded
+wire chunks (``.wire[direction][segment]`` = list of packets) and the payloads they carry
+(``.sent``), used by C02.
 
 Helpers for other engines (C09/C10 Tap): ``ref_direction(cipher, mac, hashname, K, H,
 session_id, client_to_server)`` builds one keyed ``refssh.Direction`` (stateful: build one per
@@ -119,6 +120,10 @@ def check_offered():
         )
     if set(Transport._compression_info) != set(COMPRESSIONS):
         raise HarnessBug("compression table changed: %r" % (sorted(Transport._compression_info),))
+    try:
+        R.selfcheck()  # the reference must decode/reproduce the upstream fixed vector
+    except R.RefError as e:
+        raise HarnessBug("vlib.refssh failed its self check: %s" % e)
 
 
 def framing_class(cipher, mac):
